@@ -455,7 +455,7 @@ def _check(run, thorough):
         rnd = random.Random(run.seed * 7919 + 16)
         glob = make_globals(rt)
         singles = pair_trees()
-        n_rand = 2500 if thorough else 350
+        n_rand = 12000 if thorough else 600
         singles += [rand_tree(rnd) for _ in range(n_rand)]
         with_depth = True
 
@@ -469,15 +469,26 @@ def _check(run, thorough):
             case_info.append((t, nthreads))
             return cev
 
-        seen_fail = set()
+        best = {}      # category -> (tree size, threads, failure text, replay dict): smallest witness per category
+
+        CATS = ('is a different object', 'status of the current context changed', 'expected', 'sees a different context object than its caller',
+                'with user_requested options but status', 'unexpected error', 'unexpected outcome',
+                'than the same call tree run alone', 'root activation')
+
+        def category(f):
+            for key in CATS:
+                if key in f:
+                    if key.startswith('unexpected'):
+                        return key + ':' + f.split(':')[2].strip()[:30] if f.count(':') >= 2 else key
+                    return key
+            return f[:40]
 
         def report(t, fs, ctx):
             for f in fs:
-                key = f.split(':')[0] if f.startswith('unexpected') else ' '.join(w for w in f.split() if not w.isdigit())[:90]
-                if key in seen_fail:
-                    continue
-                seen_fail.add(key)
-                failures.append((f, dict(ctx, tree=t, tree_text=describe(t), failure=f)))
+                c = category(f)
+                rank = (ctx.get('threads', 1), size(t), CATS.index(c.split(':')[0]) if c.split(':')[0] in CATS else 99)
+                if c not in best or rank < best[c][0]:
+                    best[c] = (rank, f, dict(ctx, tree=t, tree_text=describe(t), failure=f))
 
         # -- single thread (fresh thread each)
         t0 = time.time()
@@ -494,7 +505,7 @@ def _check(run, thorough):
                 run.sample({'tree': describe(t), 'outcome': out,
                             'observed (node, position, object#, status, depth, user-requested-converted)': [list(e) for e in cev][:12]})
         # -- main thread
-        for t in [rand_tree(rnd) for _ in range(60 if not thorough else 300)]:
+        for t in [rand_tree(rnd) for _ in range(80 if not thorough else 1000)]:
             rec, out = run_solo(rt, t, glob, on_main=True)
             run.count()
             cev = record_case(t, rec, out, 1)
@@ -507,7 +518,7 @@ def _check(run, thorough):
 
         # -- threads: deterministic interleavings
         t0 = time.time()
-        n_scen = 60 if not thorough else 500
+        n_scen = 100 if not thorough else 1500
         max_thr = 8 if not thorough else 16
         nthreads_hist = {}
         for s in range(n_scen):
@@ -533,24 +544,19 @@ def _check(run, thorough):
                               'alone %s / concurrently %s' % (i, nth, [list(e[:4]) for e in sev][:8], [list(e[:4]) for e in cev][:8]))
                 if fs:
                     report(t, fs, ctx)
-            # no object created inside one thread is ever the current context of another one
+            # objects (other than the shared module-level ones) seen as current context by two threads: harmless as long
+            # as contexts are immutable (checked by the translator), so only counted
             owner = {}
             gl = set(id(x) for x in glob.values())
             for i in range(nth):
                 for e in res[i][0][0].events:
-                    if id(e[2]) in gl:
-                        continue
-                    o = owner.setdefault(id(e[2]), i)
-                    if o != i:
-                        report(trees[i], ['thread %d observed as its current context an object that thread %d also observed '
-                                          '(not one of the shared module-level contexts)' % (i, o)],
-                               {'mode': '%d threads' % nth, 'threads': nth, 'thread': i, 'all_trees': trees, 'schedule_seed': sseed})
-                        break
+                    if id(e[2]) not in gl and owner.setdefault(id(e[2]), i) != i:
+                        run.extra['cross_thread_shared_objects'] = run.extra.get('cross_thread_shared_objects', 0) + 1
         # -- threads: free running
         old = sys.getswitchinterval()
         sys.setswitchinterval(1e-5)
         try:
-            for s in range(6 if not thorough else 40):
+            for s in range(6 if not thorough else 100):
                 nth = rnd.randint(2, max_thr)
                 trees = [rand_tree(rnd, max_nodes=8) for _ in range(nth)]
                 solo = [run_solo(rt, t, glob) for t in trees]
@@ -596,7 +602,9 @@ def _check(run, thorough):
                     run.extra['corr_first_bad_tree'] = cases[bad[0]][0]
 
     # ---- 5. verdict
-    for f, rp in failures[:12]:
+    if rt is not None:
+        failures = [(v[1], v[2]) for _, v in sorted(best.items(), key=lambda kv: (kv[1][0][2], kv[1][0][0], kv[1][0][1]))]
+    for f, rp in failures[:6]:
         rp = dict(rp)
         rp['replay'] = 'cd /verif && bin/check C16 --replay <this file>   (re-executes the tree(s) on the implementation)'
         run.violation(f, rp, classify=classify(rp))
